@@ -1696,24 +1696,39 @@ pub fn compile_grouping_key(
         let original_plan = gk_plan;
         let encoding_range = encoding_range(&gk_plan, planner);
         debug!("Encoding range of {:?} for {:?}", &encoding_range, &gk_plan);
-        let (max_cardinality, offset) = match encoding_range {
-            Some((min, max)) => {
-                if min <= 0 && gk_plan.is_nullable() {
-                    (max - min + 1, Some(-min + 1))
-                } else if gk_plan.is_nullable() {
-                    (max, Some(0))
-                } else if min < 0 {
-                    (max - min, Some(-min))
-                } else {
-                    (max, None)
-                }
+        // A range whose width does not fit into an i64 cannot be shifted into the non-negative integers:
+        // treat it like an unknown range (hash grouping on the unshifted values).
+        let checked_range = encoding_range.and_then(|(min, max)| {
+            if min <= 0 && gk_plan.is_nullable() {
+                let cardinality = max.checked_sub(min)?.checked_add(1)?;
+                let offset = min.checked_neg()?.checked_add(1)?;
+                Some((cardinality, Some(offset)))
+            } else if gk_plan.is_nullable() {
+                Some((max, Some(0)))
+            } else if min < 0 {
+                Some((max.checked_sub(min)?, Some(min.checked_neg()?)))
+            } else {
+                Some((max, None))
             }
-            None => (1 << 62, None),
-        };
+        });
+        let (max_cardinality, offset) = checked_range.unwrap_or((1 << 62, None));
 
         if gk_plan.is_nullable() {
             gk_plan = match offset {
-                Some(offset) => planner.fuse_int_nulls(offset, gk_plan),
+                Some(offset) => {
+                    // Fused values range up to `max_cardinality`, which can exceed the column's own integer type
+                    // (e.g. a nullable u8 column containing 255 is shifted by one to make room for NULL).
+                    let type_max = match gk_plan.tag.non_nullable() {
+                        EncodingType::U8 => i64::from(u8::MAX),
+                        EncodingType::U16 => i64::from(u16::MAX),
+                        EncodingType::U32 => i64::from(u32::MAX),
+                        _ => i64::MAX,
+                    };
+                    if max_cardinality > type_max {
+                        gk_plan = planner.cast(gk_plan, EncodingType::I64);
+                    }
+                    planner.fuse_int_nulls(offset, gk_plan)
+                }
                 None => planner.fuse_nulls(gk_plan),
             }
         } else if let Some(offset) = offset {
@@ -1727,7 +1742,14 @@ pub fn compile_grouping_key(
         let mut decoded_group_by = encoded_group_by_placeholder;
         if original_plan.is_nullable() {
             decoded_group_by = match offset {
-                Some(offset) => planner.unfuse_int_nulls(offset, decoded_group_by),
+                Some(offset) => {
+                    let unfused = planner.unfuse_int_nulls(offset, decoded_group_by);
+                    if unfused.tag.non_nullable() != original_plan.tag.non_nullable() {
+                        planner.cast(unfused, original_plan.tag.non_nullable())
+                    } else {
+                        unfused
+                    }
+                }
                 None => {
                     if decoded_group_by.tag.is_naturally_nullable() {
                         decoded_group_by
@@ -1843,50 +1865,74 @@ fn try_bitpacking(
             "Encoding range of {:?} for {:?}",
             &encoding_range, &query_plan
         );
-        if let Some((min, max)) = encoding_range {
-            fn bits(max: i64) -> i64 {
-                ((max + 1) as f64).log2().ceil() as i64
+        // Number of bits required to represent every value in 0..=max (exact; a floating point logarithm
+        // is off by one for values above 2^53 that are rounded down to a power of two).
+        fn bits(max: i64) -> i64 {
+            if max <= 0 {
+                0
+            } else {
+                64 - i64::from(max.leading_zeros())
             }
-            let max = if query_plan.is_nullable() && min <= 0 {
-                max + 1
+        }
+        // Bounds of the shifted column, or None if they do not fit into an i64 (the key cannot be bitpacked).
+        fn shifted_bounds(min: i64, max: i64, nullable: bool) -> Option<(i64, i64, i64, i64)> {
+            let max = if nullable && min <= 0 {
+                max.checked_add(1)?
             } else {
                 max
             };
-
+            let width = max.checked_sub(min)?;
+            let neg_min = min.checked_neg()?;
+            let null_offset = if nullable { neg_min.checked_add(1)? } else { 0 };
+            Some((max, width, neg_min, null_offset))
+        }
+        let shifted = encoding_range
+            .and_then(|(min, max)| shifted_bounds(min, max, query_plan.is_nullable()).map(|s| (min, s)));
+        if let Some((min, (max, width, neg_min, null_offset))) = shifted {
             // PERF: more intelligent criterion. threshold should probably be a function of total width.
             let subtract_offset =
-                bits(max) - bits(max - min) > 1 || min < 0 || query_plan.is_nullable();
+                bits(max) - bits(width) > 1 || min < 0 || query_plan.is_nullable();
             let adjusted_max = if query_plan.is_nullable() {
-                max - min + 1
+                match width.checked_add(1) {
+                    Some(adjusted_max) => adjusted_max,
+                    None => {
+                        planner.reset();
+                        return Ok(None);
+                    }
+                }
             } else if subtract_offset {
-                max - min
+                width
             } else {
                 max
             };
+            if total_width + bits(adjusted_max) > 63 {
+                planner.reset();
+                return Ok(None);
+            }
             order_preserving = order_preserving && plan_type.is_order_preserving();
-            let mut adjusted_query_plan = if query_plan.is_nullable() {
-                let fused = planner.fuse_int_nulls(-min + 1, query_plan);
-                if fused.tag != EncodingType::I64 {
-                    planner.cast(fused, EncodingType::I64).i64()?
+            // `query_plan` has the filter applied already; only the constant standing in for a missing
+            // column still has the length of the unfiltered partition.
+            let adjusted_query_plan = if query_plan.is_nullable() {
+                // Widen before shifting: the shifted values need not fit into the column's own integer type.
+                let widened = if query_plan.tag.non_nullable() != EncodingType::I64 {
+                    planner.cast(query_plan, EncodingType::I64)
                 } else {
-                    fused.i64()?
-                }
+                    query_plan
+                };
+                planner.fuse_int_nulls(null_offset, widened).i64()?
             } else if subtract_offset {
-                let offset = planner.scalar_i64(-min, true);
+                let offset = planner.scalar_i64(neg_min, true);
                 planner.add(query_plan, offset.into()).i64()?
             } else if query_plan.is_null() {
-                let x = planner
-                    .constant_expand(0, partition_len, EncodingType::I64)
-                    .i64()?;
+                let x = planner.constant_expand(0, partition_len, EncodingType::I64);
                 info!("EMITTING NULL CONSTANT EXPAND {:?}", x);
-                x
+                filter
+                    .apply_filter(planner, x)
+                    .i64()
+                    .expect("source type should be i64")
             } else {
                 planner.cast(query_plan, EncodingType::I64).i64()?
             };
-            adjusted_query_plan = filter
-                .apply_filter(planner, adjusted_query_plan.into())
-                .i64()
-                .expect("source type should be i64");
 
             if total_width == 0 {
                 plan = Some(adjusted_query_plan);
@@ -1906,7 +1952,7 @@ fn try_bitpacking(
                     )
                     .into();
                 if query_plan.is_nullable() {
-                    decode_plan = planner.unfuse_int_nulls(-min + 1, decode_plan);
+                    decode_plan = planner.unfuse_int_nulls(null_offset, decode_plan);
                 } else if query_plan.is_null() {
                 } else if subtract_offset {
                     let offset = planner.scalar_i64(min, true);
